@@ -8,7 +8,7 @@ import gen_prog
 ID = "C18"
 PROP_FILE = "props/C18.v"
 COQ_TARGETS = ["props/C18.v", "model/BookHist.v"]
-THEOREMS = ["C18_contains", "C18_parent", "C18_node", "C18_tables", "C18_history", "C18_remove_after_add_refuted"]
+THEOREMS = ["C18_contains", "C18_parent", "C18_parent_exact", "C18_outer_exact", "C18_node", "C18_tables", "C18_history", "C18_remove_after_add_refuted"]
 TRUSTED_BASE = [
     "Coq 8.16.1 kernel, vm_compute for the in-coqc correspondence",
     "model/Book.v: hand transcription of BookkeepingVisitor.generic_visit as the ordered list of table writes, tied by K-book",
@@ -38,12 +38,20 @@ def coq_shape(sh):
     return "Nd %s %d%%N [%s]" % ("true" if st else "false", i, "; ".join("(%s, %s)" % ("true" if il else "false", coq_shape(c)) for il, c in ch))
 
 
-def coq_cases_file(shapes):
-    L = ["From Coq Require Import List NArith Bool.", "Import ListNotations.", "From PyccoloV Require Import model.Book.",
-         "Definition one (t : node) := let ws := visit None t in",
-         "  map (fun n => (nid n, cs_lookup ws (nid n) None, ps_lookup ws (nid n) None, ca_lookup ws (nid n) None)) (nodes t)."]
-    for sh in shapes:
-        L.append("Eval vm_compute in one (%s)." % coq_shape(sh))
+TYCODE = {"If": 1, "Try": 2, "With": 3, "AsyncWith": 4, "For": 5, "AsyncFor": 6, "While": 7}
+
+
+def coq_cases_file(shapes, types=None):
+    L = ["From Coq Require Import List NArith Bool.", "Import ListNotations.", "From PyccoloV Require Import model.Book proofs.BookExact.",
+         "Definition tyf (tab : list (N * N)) (i : N) : N := match find (fun p => N.eqb (fst p) i) tab with Some p => snd p | None => 0%N end.",
+         "Definition inl (l : list N) (c : N) : bool := existsb (N.eqb c) l.",
+         "Definition one (t : node) (tab : list (N * N)) := let ws := visit None t in",
+         "  map (fun n => (nid n, cs_lookup ws (nid n) None, ps_lookup ws (nid n) None, ca_lookup ws (nid n) None,",
+         "                 if nstmt n then [only_allowed_tbl (tyf tab) (inl [1;2;3;4]%N) t (nid n) (length (nodes t)); only_allowed_tbl (tyf tab) (inl [1;2;3;4;5;6;7]%N) t (nid n) (length (nodes t));",
+         "                                  only_allowed_tbl (tyf tab) (inl [1;3;4]%N) t (nid n) (length (nodes t)); only_allowed_tbl (tyf tab) (inl [2;4]%N) t (nid n) (length (nodes t))] else [])) (nodes t)."]
+    for k, sh in enumerate(shapes):
+        tab = "; ".join("(%d, %d)" % (int(i), TYCODE[ty]) for i, ty in (types[k] if types else []) if ty in TYCODE)
+        L.append("Eval vm_compute in one (%s) [%s]%%N." % (coq_shape(sh), tab))
     return "\n".join(L) + "\n"
 
 
@@ -215,7 +223,8 @@ def run(ctx, model_ok):
     if model_ok:
         flat = [(ci, fi, f) for ci, im in enumerate(impl) if "files" in im for fi, f in enumerate(im["files"])]
         shards = [flat[i:i + 25] for i in range(0, len(flat), 25)]
-        outs = lib.coq_eval_many([("c18_cases_%d" % i, coq_cases_file([f["shape"] for _, _, f in sh])) for i, sh in enumerate(shards)], timeout=900)
+        outs = lib.coq_eval_many([("c18_cases_%d" % i, coq_cases_file([f["shape"] for _, _, f in sh], [[(ix, lx["type"]) for ix, lx in f["lexical"].items()] for _, _, f in sh]))
+                                  for i, sh in enumerate(shards)], timeout=900)
         for i, sh in enumerate(shards):
             rc, out = outs["c18_cases_%d" % i]
             vals = lib.parse_marked(out) if rc == 0 else []
@@ -225,9 +234,11 @@ def run(ctx, model_ok):
             for (ci, fi, f), v in zip(sh, vals):
                 rows = lib.parse_coq_list(v)
                 bad = None
-                for (nid, cs, ps, ca) in rows:
+                for (nid, cs, ps, ca, cl) in rows:
                     tb = f["tables"][str(nid)]
                     m = {"cs": optv(cs), "ps": optv(ps), "ca": optv(ca)}
+                    if cl:
+                        m.update({"outer": cl[0], "initial_frame": cl[1], "outer_excl_try": cl[2], "outer_excl_if_with": cl[3]})
                     if m != {k: tb[k] for k in m}:
                         bad = {"case": ci, "file": fi, "node": nid, "type": f["lexical"][str(nid)]["type"], "model": m, "impl": {k: tb[k] for k in m}}
                         break
